@@ -39,14 +39,14 @@ PROPS = {
     "C06": {
         "tests": ["TestC06"],
         "design_ref": "DESIGN.md §3.6",
-        "level_text": 'Correspondence of the interleaving model (TTL cell semantics of WithTTL, UpdateTTL refresh in a fresh cell, detached background context) with the implementation: the wrapping backend records TTL(ctx) of every Write, builders record Err/Done/Deadline/Value of their context; predicate c06_get_ok on every trace; model-level lemmas in properties/C06.v.',
-        "level_note": "Trusted: as C01; interpretation O3 (no TTL cell in the caller's context: builder updates have nothing to update) and O6 (a SkipRead Get that finds the key locked accepts the owner's result).",
+        "level_text": "Theorems C06_builder_ttls_minimal_nonzero (WithTTL(ctx,ttl,true) repeated keeps the smallest non-zero TTL, negative ones included), C06_cell_changes_only_in_builder / C06_other_gets_do_not_touch_the_cell (the TTL cell of a Get changes only when its builder returns, by exactly the builder's updates; the stale re-store and all other steps leave it alone; the background build starts with the caller's cell, key and SkipRead flag), C06_store_ttls (every backend write is the final store with the cell's TTL, 0 = backend default, or the re-store of the stale value with UpdateTTL), C06_no_cell_nothing_to_update, C06_skip_still_stores — Coq, no axioms. Correspondence: the wrapping backend records TTL(ctx) of every Write, builders record Err/Done/Deadline/Value of their context on every Get path incl. cancelled callers; predicate c06_get_ok on every trace.",
+        "level_note": "Trusted: as C01; interpretations O3 (no TTL cell in the caller's context: builder updates have nothing to update) and O6 (a SkipRead Get that finds the key locked accepts the owner's result). Partial: cancellation / deadline / values of the detached background context are runtime behaviour of context.Context that the model does not represent; they are observed by the correspondence run only.",
     },
     "C05": {
         "tests": ["TestC05"],
         "design_ref": "DESIGN.md §3.5",
-        "level_text": 'Correspondence of the interleaving model with the implementation on bursts under SyncRead and on failure windows at exact fake-clock offsets (0.5/0.94/1.06/2 x FailedUpdateTTL, contexts with TTLs, SkipRead, ExpireAll), with the decidable predicates C05_single_obs / C05_fail_obs evaluated on every implementation trace; model-level theorem: see properties/C05.v.',
-        "level_note": "Trusted: as C01; the failure cache's jitter is an oracle input validated against the C10 bound.",
+        "level_text": 'Theorems C05_single_flight (with SyncRead every builder invocation for k is preceded by a read of k under the key lock, by the invoking Get or the Get that spawned the background build, that did not hit, with no build result for k stored in between), C05_no_rebuild_while_fresh (hence against a backend that answers with a hit once a build result was stored, no second builder invocation for k: a burst costs one successful build), C05_failure_gate (a Get that checks the failure cache while the failure is live returns the cached error and is never inside the builder afterwards), C05_failures_not_cached (FailedUpdateTTL=-1: the failure cache stays empty) — Coq, no axioms, every number of Gets, keys, schedules, oracle answers. Correspondence: bursts under SyncRead and failure windows at exact fake-clock offsets (0.5/0.94/1.06/2 x FailedUpdateTTL), predicates C05_single_obs / C05_fail_obs on every implementation trace.',
+        "level_note": "Trusted: as C01; 'while the result stays fresh' is the hypothesis [coherent] on the backend oracle (the real backends satisfy it by C07/C08); the expiry instant the failure cache stores is an oracle input validated against the C10 bound; that the builder is invoked again once the failure expired is checked by the correspondence run (the model has the step, no liveness theorem).",
     },
     "C04": {
         "tests": ["TestC04"],
@@ -63,8 +63,8 @@ PROPS = {
     "C02": {
         "tests": ["TestC02"],
         "design_ref": "DESIGN.md §3.2",
-        "level_text": "Correspondence of the C01 interleaving model (which returns only provenanced values by construction of its steps) with the implementation under injected backend faults, plus the decidable provenance predicate C02_obs evaluated on every implementation trace; the provenance theorem over the model's ghost log is stated in DESIGN §3.2 (proof in progress: see properties/C02.v for what is proved).",
-        "level_note": "Trusted: as C01; unique token discipline of the harness (builder tokens, seeds, error numbers are distinct so 'belongs to another key' is decidable).",
+        "level_text": 'Theorems C02_provenance / C02_value_was_built_or_stored / C02_error_was_produced (Coq, no axioms): an invariant over every reachable state of the interleaving model (any number of Gets and keys, any schedule, adversarial backend / builder / clock, every configuration, both variants, every staleness test and every nil test recognising the zero token): each return event in the ghost log is justified by events BEFORE it — with a nil error the value was returned by a finished builder invocation for the same key or read from the backend under that key; an error was produced by a builder invocation for that key (possibly served from the failure cache) or by the backend for that key. Carried by invariants on threads, key-lock records (published before close), the failure cache and the log (FailoverProv.v). Correspondence: steered runs with injected backend faults, C02_obs on every implementation trace.',
+        "level_note": "Trusted: as C01; unique token discipline of the harness (builder tokens, seeds, error numbers are distinct so 'belongs to another key' is decidable on traces). A panicking builder is outside the model (the owner then closes the key lock without publishing).",
     },
     "C01": {
         "tests": ["TestC01"],
